@@ -32,6 +32,11 @@ type RemoteInst2 q.QG2[string, bool]
 
 type St struct{ F int }
 
+// blank-named declarations: nothing to mock, nothing to trip over
+type _ interface{ Blank() }
+
+type _[T any] interface{ BlankG(T) }
+
 type Fn func()
 
 type GenSt[T any] struct{ x T }
@@ -263,6 +268,28 @@ func C07(c *core.Ctx) error {
 			sort.Strings(exp)
 			root["packages"] = core.M{P: pk}
 			scns = append(scns, c07scn{id: fmt.Sprintf("configs len=%d all=%v", n, all), cfg: root, files: map[string]string{"p/p.go": c07src, "q/q.go": c07q}, expect: exp})
+		}
+	}
+	{ // configs entries that differ ONLY in the directory (same file name, same struct name), or only in the file name,
+		// or only in the package name: still one mock per entry
+		for _, only := range []string{"dir", "filename", "pkgname+dir"} {
+			root := c07baseRoot(probe)
+			var entries []any
+			for k := 0; k < 3; k++ {
+				e := core.M{}
+				switch only {
+				case "dir":
+					e["dir"] = fmt.Sprintf("out/d%d", k)
+				case "filename":
+					e["filename"] = fmt.Sprintf("mocks_%d_test.go", k)
+				case "pkgname+dir":
+					e["dir"], e["pkgname"] = fmt.Sprintf("out/p%d", k), fmt.Sprintf("pk%d", k)
+				}
+				entries = append(entries, e)
+			}
+			root["packages"] = core.M{P: core.M{"interfaces": core.M{"Exp": core.M{"configs": entries}}}}
+			exp := []string{P + "|Exp|MockExp", P + "|Exp|MockExp", P + "|Exp|MockExp"}
+			scns = append(scns, c07scn{id: "three configs entries differing only in " + only, cfg: root, files: map[string]string{"p/p.go": c07src, "q/q.go": c07q}, expect: exp})
 		}
 	}
 	{
